@@ -5,10 +5,10 @@ CONSTANTS
   MaxNow = 8
   MaxRuns = 3
   MaxClr = 1
-  Dev = {"fire_early"}
-  Slows = {0}
+  Dev = {"stale_now"}
+  Slows = {0, 2}
   Export = FALSE
 INIT Init
 NEXT Next
-INVARIANT NoEarlyFire
+INVARIANT RepeatSpacing
 CHECK_DEADLOCK FALSE
